@@ -4,6 +4,7 @@
    Model/C14f.v (binary64 = SpecFloat at prec 53 / emax 1024). *)
 From Coq Require Import ZArith String Bool Permutation List SpecFloat.
 From CBI Require Import Lib.Data Model.C14 Model.C14f Proofs.C14 Proofs.C14f.
+From CBI Require Import Gen.C14_sites Model.C14g Proofs.C14g.
 From CBI Require Model.C16 Proofs.C16 Proofs.C14d.
 Import ListNotations.
 
@@ -130,6 +131,45 @@ Theorem C14_table_perm :
   forall rows rows', Permutation rows rows' -> t_answer rows = t_answer rows'.
 Proof. exact t_answer_perm. Qed.
 Print Assumptions C14_table_perm.
+
+(* --- the tie to the source ------------------------------------------------ *)
+(* Gen/C14_sites.v is regenerated from /repo on every run (fail-closed ast
+   translator): the sort key of summary, the accumulation form of distance, the
+   platform order of divergence and the iteration of CodeBase found in the
+   source NOW select exactly the variants the theorems above are about, and the
+   remaining print sites (row names, clustering, duplicates, cbi-tree letters and
+   legend, the export loop) are in their sorted / direct form. *)
+Theorem C14_source_sites :
+  summary_rows_src = summary_rows /\
+  distance_src = distance_f /\
+  (forall sm order, divergence_src sm order = divergence_f sm) /\
+  iter_codebase_src = iter_codebase /\
+  other_sites_sorted = true.
+Proof. exact sites_are_repaired. Qed.
+Print Assumptions C14_source_sites.
+
+(* divergence over list(set(...)) - the form before the repair - is refuted even
+   with the repaired distance: two orders of one platform set, different bits *)
+Theorem C14_divergence_platform_order_old_refuted :
+  exists (sm : setmap) (o o' : list name) (x y : f64),
+    Permutation o o' /\ platforms_of sm = o /\
+    divergence_with (distance_f sm) o = FVal x /\ divergence_with (distance_f sm) o' = FVal y /\ x <> y.
+Proof.
+  exists div_rows, div_order1, div_order2,
+    (S754_finite false 4903919594247874 (-54)), (S754_finite false 4903919594247873 (-54)).
+  destruct divergence_platform_order_dependent as (P & E & H1 & H2).
+  split; [exact P|]. split; [exact E|]. split; [exact H1|]. split; [exact H2|discriminate].
+Qed.
+Print Assumptions C14_divergence_platform_order_old_refuted.
+
+(* CodeBase.__iter__ before the repair: the export follows the enumeration *)
+Theorem C14_iteration_old_refuted :
+  exists files files' : list pfile,
+    Permutation files files' /\ NoDup (map pf_path files) /\
+    map (cov_record []) (iter_codebase_old files) <> map (cov_record []) (iter_codebase_old files') /\
+    coverage_export [] files = coverage_export [] files'.
+Proof. exists it_files, (rev it_files). exact iteration_old_order_dependent. Qed.
+Print Assumptions C14_iteration_old_refuted.
 
 (* --- duplicates (corollary of C16) ---------------------------------------- *)
 (* For every digest, every behaviour of set.pop() and every enumeration order
